@@ -164,10 +164,15 @@ def classify_diff(op, exp, diff, mp=False):
 class SeqEngine(object):
     """Executes a generated history on the real store and on the model in lock-step."""
 
-    def __init__(self, prog, probes=True, hooks=None, keep=False):
+    def __init__(self, prog, probes=True, hooks=None, keep=False, monitor=False, prologue=None,
+                 ro_snapshot=False):
         self.prog = prog
         self.probes = probes
         self.hooks = hooks or {}
+        self.use_monitor = monitor
+        self.monitor = None
+        self.prologue = prologue
+        self.ro_snapshot = ro_snapshot
         self.keep = keep
         self.res = RunResult()
         self.world = None
@@ -200,8 +205,16 @@ class SeqEngine(object):
         res = self.res
         mp = w.mp
         with seam.activate(w.run, 0):
+            if self.prologue is not None:
+                self.prologue(self)
+                if res.violations:
+                    return
             w.open_store()
             mdl = self.model = w.model()
+            if self.use_monitor:
+                from . import hooks as H
+                self.monitor = H.AccessMonitor(self)
+                w.run.observers.append(self.monitor)
             self.check_state(None, None, -1)
             for i, op in enumerate(self.prog["ops"]):
                 if res.violations:
@@ -209,14 +222,20 @@ class SeqEngine(object):
                 name = op["op"]
                 if name in self.hooks:
                     self.hooks[name](self, i, op)
+                    self.check_monitor(op, i)
+                    continue
+                if self.ro_snapshot and op.get("ro"):
+                    from . import hooks as H
+                    H.wrap_readonly(self, i, op)
                     continue
                 if name == "restart":
                     w.open_store()
                     res.flags.add("restart")
                     continue
                 exp = mdl.apply(op)
-                w.run.calllog_start = len(w.run.log)
-                out, extra = w.exec_op(op)
+                out, extra = self.exec(op)
+                if self.check_monitor(op, i):
+                    break
                 res.trace.append({"i": i, "op": op, "out": [out[0], _jsonable(out[1])],
                                   "exp": exp.describe()})
                 self.note_flags(op, exp, out)
@@ -232,6 +251,27 @@ class SeqEngine(object):
                         self.violation({"C01"}, "stream", "stream:%s" % name, {"op": op, "stream": st}, i)
                         break
                 self.check_state(op, exp, i)
+
+    def exec(self, op):
+        if self.monitor is not None:
+            self.monitor.begin(op, self.world)
+            try:
+                return self.world.exec_op(op)
+            finally:
+                self.monitor.end()
+        return self.world.exec_op(op)
+
+    def check_monitor(self, op, i):
+        w = self.world
+        if w.run.escapes:
+            self.violation({"C18"}, "containment", "containment:%s" % w.run.escapes[0][0],
+                           {"op": op, "escapes": w.run.escapes[:4]}, i)
+            return True
+        if self.monitor is not None and self.monitor.problem is not None:
+            kind, detail = self.monitor.problem
+            self.violation({"C18"}, "isolation", "isolation:%s" % kind, dict(detail, op=op), i)
+            return True
+        return False
 
     def note_flags(self, op, exp, out):
         f = self.res.flags
@@ -276,7 +316,7 @@ class SeqEngine(object):
         # look-ups through the API: every pid of the alphabet
         for pi, pid in enumerate(w.pids):
             pexp = mdl.op_retrieve({"pid": pi})
-            out, extra = w.exec_op({"op": "retrieve", "pid": pi})
+            out, extra = self.exec({"op": "retrieve", "pid": pi})
             if not pexp.matches(out):
                 props = {"C05"}
                 if pexp.has_ok:
@@ -293,7 +333,7 @@ class SeqEngine(object):
                 pexp = mdl.op_rmeta({"pid": pi, "fmt": f})
                 if not pexp.has_ok and len(w.pids) * len(fmts) > 12 and (pi + (f or 0) + i) % 3:
                     continue  # sample the absent ones when the alphabet is large
-                out, extra = w.exec_op({"op": "rmeta", "pid": pi, "fmt": f})
+                out, extra = self.exec({"op": "rmeta", "pid": pi, "fmt": f})
                 if not pexp.matches(out):
                     props = {"C11"}
                     if mp:
@@ -306,6 +346,8 @@ class SeqEngine(object):
         a2 = w.alpha()
         if _alpha_key(a2) != _alpha_key(a):
             self.violation({"C17"}, "probe", "probe:readonly-changed", {"after": op}, i)
+            return
+        self.check_monitor(op, i)
 
 
 def _alpha_key(a):
